@@ -1,6 +1,14 @@
-/- Driver ops for C16 (prefix `tzp.`): TZif reader, TZ-rule reader, and the specification's writers. -/
+/- Driver ops for C16 (prefix `tzp.`): TZif reader, TZ-rule reader, the specification's writers, and
+   the three-valued lookups on a zone the reader built (the zone travels as the hook's canonical dump,
+   four tokens, as for the `tzl.` ops; answers comma-separated):
+     tzp.layout x<bytes>             -> <announcedLen 4> <announcedLen 8 of the rest | -> <footer length>
+     tzp.at  <dump> t1,t2,…          -> o<off>:<dst> | err | panic             (lookup by instant)
+     tzp.loc <dump> ℓ1:y1,ℓ2:y2,…    -> s<off> | a<o1>/<o2> | n | err | panic  (lookup by wall clock:
+                                        timestamp and calendar year of the `NaiveDateTime`) -/
 import Chrono.Drv.Util
+import Chrono.Drv.TzLookup
 import Chrono.Model.TzParse
+import Chrono.Model.TzLookupP
 import Chrono.Spec.TzSpec
 namespace Chrono.Drv.TzParse
 open Chrono Chrono.M.Tz Chrono.Drv
@@ -72,6 +80,31 @@ def handle (op : String) (args : List String) : Option String :=
       | some sn, some so, some dn, some d_o, some d1, some t1, some d2, some t2 =>
         hexEncode (Spec.Tz.renderTz (.alt ⟨⟨so, false, some sn⟩, ⟨d_o, true, some dn⟩, d1, t1, d2, t2⟩))
       | _, _, _, _, _, _, _, _ => bad)
+  | "tzp.layout", [h] => some (match hexDecode h with
+      | some bs =>
+        let a4 := Spec.Tz.announcedLen 4 bs
+        let v1 := versionOf ((bs.drop 4).take 1) == some Version.V1
+        let a8 := if v1 then "-" else toString (Spec.Tz.announcedLen 8 (bs.drop a4))
+        s!"{a4} {a8} {(Spec.Tz.footerOf bs).length}"
+      | none => bad)
+  | "tzp.at", [a, b, c, d, qs] => some (match TzLookup.parseZone a b c d with
+      | none => bad
+      | some z => TzLookup.answers qs (fun q => match TzLookup.intC q with
+          | none => bad
+          | some t => match z.find_local_time_type_P t with
+            | .ok l => s!"o{l.off}:{if l.dst then 1 else 0}"
+            | .err => "err"
+            | .panic => "panic"))
+  | "tzp.loc", [a, b, c, d, qs] => some (match TzLookup.parseZone a b c d with
+      | none => bad
+      | some z => TzLookup.answers qs (fun q => match TzLookup.splitC ':' q with
+          | [l, y] => (match TzLookup.intC l, TzLookup.intC y with
+            | some ℓ, some year => match z.find_local_time_type_from_local_P year ℓ with
+              | .ok m => TzLookup.showMapped (m.map (·.off))
+              | .err => "err"
+              | .panic => "panic"
+            | _, _ => bad)
+          | _ => bad))
   | _, _ => none
 
 end Chrono.Drv.TzParse
